@@ -45,8 +45,16 @@ CHECKS = {
 NOT_APPLICABLE = {
 }
 
+# checks built by builder sub-agents: their manifest text lives in checks/<id>.meta.json
+FROM_META = ["C07"]
+
+
 def main():
     props = [json.loads(l)["id"] for l in open(os.path.join(ROOT, "properties.jsonl"))]
+    for pid in FROM_META:
+        m = json.load(open(os.path.join(ROOT, "checks", pid + ".meta.json")))
+        CHECKS[pid] = dict(technique=m["technique"], category=m.get("category", "model_checking"), text=m["text"],
+                           note=m.get("note", ""), design=m.get("design", "§4 " + pid))
     checks = []
     for pid in props:
         if pid not in CHECKS:
